@@ -490,6 +490,8 @@ TrEnd ==
                   \cup (IF hasSt THEN Tag("C04", PosViolState(R.st, asg2, c) \cup PosViolGone(R.st, asg2, qm2, c)) ELSE {})
                   \cup (IF call.op \in {"truncate", "delete", "restart"} /\ (executed \/ isRestart)
                         THEN Tag("C06", FilesViol(R, c, attr2, w0file)) ELSE {})
+                  \* C12 at the weakest restart of all, a clean one: no batch comes back with a hole or a missing tail
+                  \cup (IF isRestart /\ hasSt /\ ~fatal THEN Tag("C12", BatchViol(StAbs(R.st, c.nq), c.batches)) ELSE {})
          \* the file set itself is not compared across runs (the order in which a GC pass records the empty
          \* queues shifts the cursor by a few bytes from run to run); whether files are RECLAIMED as C06 demands is
          c06v == IF ~fatal /\ call.op \in {"truncate", "delete", "restart"} /\ (executed \/ isRestart)
